@@ -241,13 +241,48 @@ def cbmc_job(unit, cfile, outdir, tag, defines, tier, fn=None):
 
 
 def witnesses_from_trace(trace):
+    """last value of every witness global W_*; element / member assignments (W_a[3l], W_s.f, W_s.a[1l]) are merged
+    into the aggregate"""
     w = {}
     for st in trace or []:
-        if st.get('stepType') == 'assignment':
-            lhs = st.get('lhs', '')
-            if lhs.startswith('W_'):
-                v = st.get('value', {})
-                w[lhs] = _val(v)
+        if st.get('stepType') != 'assignment':
+            continue
+        lhs = st.get('lhs', '')
+        if not lhs.startswith('W_'):
+            continue
+        val = _val(st.get('value', {}))
+        path = re.findall(r'\[(\d+)l?\]|\.(\w+)', lhs)
+        base = re.match(r'W_\w+', lhs).group(0)
+        if not path:
+            w[base] = val
+            continue
+        cur = w.get(base)
+        if cur is None:
+            cur = w[base] = ([] if path[0][0] else {})
+        for n, (idx, mem) in enumerate(path):
+            last = n == len(path) - 1
+            nxt = None if last else ([] if path[n + 1][0] else {})
+            if idx:
+                i = int(idx)
+                if not isinstance(cur, list):
+                    break
+                while len(cur) <= i:
+                    cur.append(0)
+                if last:
+                    cur[i] = val
+                else:
+                    if not isinstance(cur[i], (list, dict)):
+                        cur[i] = nxt
+                    cur = cur[i]
+            else:
+                if not isinstance(cur, dict):
+                    break
+                if last:
+                    cur[mem] = val
+                else:
+                    if not isinstance(cur.get(mem), (list, dict)):
+                        cur[mem] = nxt
+                    cur = cur[mem]
     return w
 
 
@@ -400,11 +435,19 @@ def build_replay(pid, unit):
 
 def run_replay(exe, unit_name, w):
     args = [exe, 'unit=' + unit_name]
-    for k, v in sorted(w.items()):
-        if isinstance(v, list):
-            args.append('%s=%s' % (k, ','.join(str(x if isinstance(x, int) else 0) for x in v)))
+    def flat(k, v):
+        if isinstance(v, list) and all(isinstance(x, int) for x in v):
+            args.append('%s=%s' % (k, ','.join(str(x) for x in v)))
+        elif isinstance(v, list):
+            for i, x in enumerate(v):
+                flat('%s.%d' % (k, i), x)
+        elif isinstance(v, dict):
+            for kk, x in v.items():
+                flat('%s.%s' % (k, kk), x)
         elif isinstance(v, int):
             args.append('%s=%d' % (k, v))
+    for k, v in sorted(w.items()):
+        flat(k, v)
     try:
         p = subprocess.run(args, stdout=subprocess.PIPE, stderr=subprocess.STDOUT, timeout=120)
         return p.returncode, p.stdout.decode(errors='replace')[-4000:]
